@@ -94,6 +94,7 @@ func (e *integEngine) checkC06(x *integExpect) {
 				c.Violate("C06", "ran-unexpectedly", "task %s was not expected to run but executed %v", t.Name, got)
 				if e.w.Graph != nil {
 					c.Violate("C02", "ran-unexpectedly-real-runner", "stage task %s must not run (a dependency failed / was cancelled) but executed %v", t.Name, got)
+					c.Violate("C01", "start-after-failed-dep-real-runner", "stage task %s started (%v) although a stage it depends on has not finished in any of the ways that let dependants go on (it failed without allow_failure, or was cancelled)", t.Name, got)
 				}
 			}
 			continue
@@ -497,6 +498,48 @@ func (e *integEngine) checkC01Overlap() {
 					}
 				}
 				c.Count("c01i_dependency_edges_checked")
+			}
+		}
+	}
+}
+
+// checkC11Shared: a task shared by several stages - each stage's execution captures exactly what
+// that execution's commands wrote to stdout (delivery recorded per goroutine), whatever the
+// sibling executions write at the same time.
+func (e *integEngine) checkC11Shared() {
+	c := e.c
+	wrote := map[string][]byte{} // stage -> stdout bytes delivered to the commands of its execution
+	pos := map[string]int{}
+	for _, ev := range c.Events {
+		if ev.Kind != "exec-write" {
+			continue
+		}
+		info := ev.Data.(*ExecInfo)
+		who := e.pl.identity(info.GID)
+		plan := e.w.PlanFor(info.ID, who)
+		k := pos[info.Key]
+		pos[info.Key] = k + 1
+		if k >= len(plan.Chunks) || info.Block != "cmd" || plan.Chunks[k].Stream != 1 {
+			continue
+		}
+		wrote[who] = append(wrote[who], plan.Chunks[k].Data...)
+	}
+	for _, g := range e.w.AllGraphs() {
+		if !e.pipelineRan(g.Name) {
+			continue
+		}
+		for _, s := range g.Stages {
+			st := e.stages[s.Name]
+			if st == nil || st.Task == nil || s.Nested != nil {
+				continue
+			}
+			got := st.Task.Output()
+			if got != string(wrote[s.Name]) {
+				c.Violate("C11", "captured-output", "stage %s (task %s, shared with other stages): captured output %s differs from the %d bytes its own commands wrote to stdout %s", s.Name, e.stageTask(s), quoteShort([]byte(got)), len(wrote[s.Name]), quoteShort(wrote[s.Name]))
+				return
+			}
+			if len(got) > 0 {
+				c.Count("c11s_stage_outputs_checked")
 			}
 		}
 	}
